@@ -102,7 +102,13 @@ func (g mapReprMapReprGenerator) EmitNodeMethodMapIterator(w io.Writer) {
 
 		func (itr *_{{ .Type | TypeSymbol }}__ReprMapItr) Next() (k datamodel.Node, v datamodel.Node, err error) {
 			k, v, err = (*_{{ .Type | TypeSymbol }}__MapItr)(itr).Next()
-			if err != nil || v == datamodel.Null {
+			if err != nil {
+				return
+			}
+			{{- if not (eq .Type.KeyType.TypeKind.String "string") }}
+			k = k.({{ .Type.KeyType | TypeSymbol}}).Representation() // complex keys appear by their (string) representation at this level
+			{{- end}}
+			if v == datamodel.Null {
 				return
 			}
 			return k, v.({{ .Type.ValueType | TypeSymbol}}).Representation(), nil
